@@ -177,6 +177,7 @@ def run_config(doc, mi, si, di, facet, lf=None, twin=False):
     if lf:
         set_load_factor(lf)
     f = docenv.PARSER.parse(DOCS[doc], M.File)
+    docenv.warm(f)
     ms = tree_models(f)
     m = ms[mi]
     slots = slots_of(type(m))
@@ -285,6 +286,7 @@ def run_value(doc, mi, pi, vi, facet, lf=None, twin=False):
     if lf:
         set_load_factor(lf)
     f = docenv.PARSER.parse(DOCS[doc], M.File)
+    docenv.warm(f)
     m = tree_models(f)[mi]
     name, cands = value_targets(m)[pi]
     v = cands[vi]
